@@ -51,6 +51,10 @@ def range_headers(size, tier):
         small = [s for s in sp if all(n in (0, 1, size - 1, size) for n in s[1:])]
         for t in itertools.product(small, repeat=3):
             out.append((RR.header_text(list(t)), list(t)))
+    for pad in (3, 6):
+        for spec in ([("fl", 0, 1)], [("f", 1)], [("s", 1)], [("fl", 0, size + 1)], [("fl", 1, 1), ("s", 2)]):
+            txt = "bytes=" + ", ".join((str(x[1]).zfill(pad) + "-" + str(x[2]).zfill(pad)) if x[0] == "fl" else (str(x[1]).zfill(pad) + "-" if x[0] == "f" else "-" + str(x[1]).zfill(pad)) for x in spec)
+            out.append((txt, spec))
     for extra in ([("fl", 9, 10)], [("fl", 99, 100)], [("fl", 0, 0), ("fl", 9, 10)], [("fl", 98, 99), ("fl", 999, 1000)], [("fl", 0, 9), ("fl", 10, 99), ("fl", 100, 999)]):
         out.append((RR.header_text(extra), extra))
     return out
@@ -205,6 +209,7 @@ def if_range_values(res200):
     et, lm = res200.header("etag"), res200.header("last-modified")
     return [
         (None, True), (et, True), (lm, True), ("W/" + et, False), ('"0000"', False), ("Tue, 14 Nov 2000 22:13:20 GMT", False), ("", True),
+        ("Fri, 01 Jan 2038 00:00:00 GMT", False), ("Tue, 14 Nov 2023 22:13:21 GMT", False), ("Tue, 14 Nov 2023 22:13:19 GMT", False),
     ]
 
 
@@ -356,7 +361,7 @@ def run_shard(desc, tier):
 
 
 def finish(merged, tier):
-    return {"bounds": {"sizes": SIZES[tier], "chunk_sizes": [c or "default" for c in CHUNKS], "max_specs": 2 if tier == "quick" else 3, "if_range_forms": 7, "malformed_headers": MALFORMED},
+    return {"bounds": {"sizes": SIZES[tier], "chunk_sizes": [c or "default" for c in CHUNKS], "max_specs": 2 if tier == "quick" else 3, "if_range_forms": 10, "malformed_headers": MALFORMED},
             "distinct_outcomes": len(merged.sets.get("outcomes", ()))}
 
 
